@@ -1075,6 +1075,8 @@ def run_operator_alphabet(rep, rng, thorough):
                                 continue
                             if method == "COBYLA" and (i // 9) % 3:
                                 continue
+                            if thorough and method in ("SLSQP", "trust-constr") and (i // 9) % 2:
+                                continue
                             if not thorough and method == "auto" and (i // 9) % 4 != 0:
                                 continue
                             if not thorough and method in ("SLSQP", "trust-constr") and (i // 9) % 12 != 1:
